@@ -5,7 +5,7 @@ import random
 import core
 import decsuite as ds
 
-THEOREMS = ["C14.c14_rows_are_blocks", "C14.c14_blocks_partition", "C14.c14_decoder_rows", "C14.c14_buffers_are_blocks", "C14.run_inRun", "C14.c14_warnings_once", "C14.prettyGo_info", "C14.c14_decoder_hex", "C14.c14_accepted_hex_is_input", "C14.decoder_classes", "C14.streamBytes_eq", "C14.decoder_shaped", "C14.c14_shape_tables", "C14.c14_decoder_total", "runWalker_gd", "decode_gd", "decodeCommand_gd",
+THEOREMS = ["C14.c14_decoder_buffers", "C14.c14_decoder_shown", "C14.decoder_endsOk", "C14.c14_ends_tables", "runWalker_endsOk", "decode_eo", "decodeCommand_ms", "decodeResponse_ms", "decodeStream_ms", "C14.c14_rows_are_blocks", "C14.c14_blocks_partition", "C14.c14_decoder_rows", "C14.c14_buffers_are_blocks", "C14.run_inRun", "C14.c14_warnings_once", "C14.prettyGo_info", "C14.c14_decoder_hex", "C14.c14_accepted_hex_is_input", "C14.decoder_classes", "C14.streamBytes_eq", "C14.decoder_shaped", "C14.c14_shape_tables", "C14.c14_decoder_total", "runWalker_gd", "decode_gd", "decodeCommand_gd",
             "decodeResponse_gd", "decodeStream_gm", "C14.c14_total_b", "C14.shaped_of_b", "C14.c14_hex", "C14.c14_hex_top", "C14.c14_row_columns", "C14.c14_total", "C14.c14_total_top",
             "C14.foldBytes_hex", "C14.foldElems_hex", "C14.c14_events_rows"]
 
@@ -134,8 +134,8 @@ def run(ctx, replay_case):
     })
 
 
-PROP = {"targets": ["TpmProofs.Props.C14S"], "module": "TpmProofs.Props.C14S", "theorems": THEOREMS, "run": run,
+PROP = {"targets": ["TpmProofs.Props.C14B"], "module": "TpmProofs.Props.C14B", "checker_modules": ["TpmProofs.Props.C14B", "TpmProofs.EndsOk"], "theorems": THEOREMS, "run": run,
         "assumptions": ["final string padding and colour codes are not modelled (rows are compared column-wise)",
-                        "that decoder-produced streams are shaped (`shapedB`: values of primitive classes, byte-buffer children carry values) is a theorem "
+                        "that decoder-produced streams are shaped and no list run in them is ended by a byte buffer (`shownB` = `shapedB` && `endsOk`; C14.c14_decoder_shown)  (`shapedB`: values of primitive classes, byte-buffer children carry values) is a theorem "
                         "(C14.decoder_shaped: every layout of /repo, commands, responses, streams, either mode, every input); it is additionally evaluated on every "
                         "stream by the model (K line of PRINT) and independently on the implementation's events"]}
